@@ -99,8 +99,12 @@ impl<'i, R: RuleType> FlatPairs<'i, R> {
 
 impl<R: RuleType> ExactSizeIterator for FlatPairs<'_, R> {
     fn len(&self) -> usize {
-        // Tokens len is exactly twice as flatten pairs len
-        (self.end - self.start) >> 1
+        // Every remaining pair is identified by its `Start` token. The window is not
+        // necessarily balanced: `next` leaves the `End` tokens of the enclosing pairs
+        // behind and `next_back` stops right before a `Start` token.
+        (self.start..self.end)
+            .filter(|&index| self.is_start(index))
+            .count()
     }
 }
 
